@@ -50,7 +50,8 @@ def _fire_actions(clock):
     return base + [(35, st.tuples(st.just("fire"), st.integers(0, 3))),
                    (6, st.tuples(st.just("unsub"), st.integers(0, 4), st.integers(0, 3))),
                    (4, st.tuples(st.just("sub"), st.integers(0, 4), st.integers(0, 3))),
-                   (6, st.tuples(st.just("rotate"), st.integers(0, 4), st.integers(0, 3)))]
+                   (6, st.tuples(st.just("rotate"), st.integers(0, 4), st.integers(0, 3))),
+                   (3, st.tuples(st.just("unsub_all"), st.integers(0, 4)))]
 
 
 def _listener_script(clock):
@@ -75,6 +76,7 @@ def _listener_script(clock):
         st.tuples(st.just("unsub"), st.integers(0, 4), st.integers(0, 3)),
         st.tuples(st.just("sub"), st.integers(0, 4), st.integers(0, 3)),
         st.tuples(st.just("rotate"), st.integers(0, 4), st.integers(0, 3)),
+        st.tuples(st.just("unsub_all"), st.integers(0, 4)),
     ).map(list)
     return st.lists(one, min_size=1, max_size=3)
 
